@@ -225,6 +225,46 @@ def check_class(model, ci, res, stats, partner=None):
     return b
 
 
+def setter_history(model, ci, res, stats):
+    """'... or by the use of any other solver in the same process': a public setter called on ANOTHER instance must not
+    change what this instance returns.  Sequence: construct #1, construct #2, every public `set_*` method of #2 with
+    fresh symbolic arguments, then call #1; no returned field of #1 may depend on an argument of a setter of #2."""
+    names = set()
+    for cn in ci.mro:
+        c = cn if hasattr(cn, 'methods') else (model.classes.get(cn) if hasattr(model, 'classes') and isinstance(getattr(model, 'classes'), dict) else None)
+        if c is not None:
+            names |= {m for m in c.methods if m.startswith('set_')}
+    if not names:
+        names = {m for m in ci.methods if m.startswith('set_')}
+    setters = sorted(names)
+    if not setters:
+        return 0
+    b = Builder(model)
+    i1, _ = b.op_construct(ci, label='#1')
+    i2, _ = b.op_construct(ci, label='#2')
+    for nm in setters:
+        b.op_method(i2, nm, '#s')
+    ret, op, inputs = b.op_run(i1, '#a')
+    inst = i1.val.oid
+    cache = {}
+    for name, d, sol in solution_fields(ret):
+        res.obligations += 1
+        bad = foreign_leaves(d, op, inst, cache)
+        if not bad:
+            res.discharged += 1
+            continue
+        key, at = channel(b, op, bad)
+        rm = ci.find_method('_run')
+        what = sorted({'%s of %s' % (l.val, b.ops[l.op]['kind']) for l in bad if l.kind == 'input'})[:3]
+        res.add(Finding(PROP, 'C06.history', rm.module.relpath, rm.qualname,
+                        "%s: returned fields depend on a setter called on another instance through %s" % (ci.name, loc_text(key)),
+                        "%s: the field '%s' returned by one instance depends on %s, a public setter called on ANOTHER instance: the value "
+                        "flows through %s, an object the instances share" % (ci.name, name, ', '.join(what) or 'a setter argument', loc_text(key)),
+                        line=getattr(at, 'lineno', 0) or rm.node.lineno, construct=src_of(at) if at is not None else 'def _run'))
+    stats['ops'] += len(b.ops) - 1
+    return len(setters)
+
+
 UNINIT = ('numpy.empty', 'numpy.empty_like', 'numpy.ndarray')
 
 
@@ -398,6 +438,7 @@ def run(model, tier):
     for ci in classes:
         res.evaluations += 1
         b = check_class(model, ci, res, stats)
+        stats['setter_ops'] = stats.get('setter_ops', 0) + setter_history(model, ci, res, stats)
         uninitialised_reads(b, ci, res, stats)
         if any(op != 0 for _, _, op, _ in b.shared_reads):
             res.nontrivial += 1
